@@ -17,7 +17,7 @@ import (
 
 type c08 struct{}
 
-func init() { core.Register(c08{}) }
+func init()            { core.Register(c08{}) }
 func (c08) ID() string { return "C08" }
 
 type c08Case struct {
